@@ -214,7 +214,7 @@ LABEL_SETS = {
     'C05': {13, 14, 15, 16, 18},
     'C06': {17, 18, 10, 11, 15, 13},
     'C07': {10, 11, 12, 18},
-    'C08': {26, 28, 18, 11, 12, 13, 15, 20, 22, 23},
+    'C08': {26, 28, 29, 18, 11, 12, 13, 15, 20, 22, 23},
     'C10': {27, 18},
     'C11': {19, 20, 18},
     'C15': {21, 22, 23, 24, 25, 18},
